@@ -26,6 +26,9 @@ def get_prop(pid):
     if pid == "C08":
         import p_reset
         return p_reset.C08Prop()
+    if pid == "C19":
+        import p_config
+        return p_config.ConfigProp()
     raise SystemExit(f"unknown property {pid}")
 
 
